@@ -10,7 +10,7 @@ import (
 var typeNames = []string{"INTEGER", "TEXT", "", "INT", "REAL", "BLOB", "NUMERIC", "integer", "VARCHAR(10)", "DECIMAL(10,5)", "BIGINT", "Integer", "CHAR", "DOUBLE", "FLOAT", "BOOLEAN", "DATETIME", "CLOB", "DOUBLE PRECISION", "UNSIGNED BIG INT"}
 
 var plainColNames = []string{"a", "b", "c", "d", "e", "f", "g", "h", "k", "v", "w", "x", "y", "z", "name", "val", "id", "n", "t", "data"}
-var oddColNames = []string{"rowid", "oid", "_rowid_", "é", "éa", "ünï", "select", "key", "my col", "A", "Col", "index", "x y", "q\"q", "日本", "_", "a1", "desc", "replace", "ROWID"}
+var oddColNames = []string{"rowid", "oid", "_rowid_", "é", "éa", "ünï", "select", "key", "my col", "A", "Col", "index", "x y", "q\"q", "日本", "_", "a1", "desc", "replace", "ROWID", "a`b", "k`1", "br]ck", "q'q", "two  spaces", "ta\tb"}
 
 var collations = []string{"BINARY", "NOCASE", "RTRIM", "nocase", "rtrim", "binary"}
 
